@@ -389,10 +389,10 @@ def _jshape_shards(tier):
 
 
 HARNESSES = [
-    H(seg_split, shards=_shape_shards, timeout={"quick": 100, "thorough": 1500}),
+    H(seg_split, shards=_shape_shards, timeout={"quick": 240, "thorough": 1500}),
     H(seg_junk, shards=lambda tier: [("shape == %d" % s, "jpos %% 2 == %d" % r)
                                      for s in range(BOUNDS[tier]["jshapes"]) for r in range(2)],
-      timeout={"quick": 100, "thorough": 900}),
+      timeout={"quick": 240, "thorough": 900}),
     H(seg_junk_all, shards=lambda tier: [("shape == %d" % s, "jpos %% 3 == %d" % r)
                                          for s in range(BOUNDS[tier]["jshapes"]) for r in range(3)],
       timeout={"thorough": 1500}, tiers=("thorough",)),
